@@ -37,12 +37,12 @@
 #define LINE 4096
 
 /* ---------------------------------------------------------------- names and keys */
-static char sem_name[NN][96], shm_name[NN][96];
+static char sem_name[NN][512], shm_name[NN][512];   /* names 2, 3, … are LONG and share a 280-byte prefix: only their tails differ */
 static char sem_key[NN][32], shm_key[NN][32], lock_key[NN][32];   /* platform keys ("/0123…") */
 static int generation;
 
 static void key_of (char *out, const char *name, const char *suffix) {
-	char buf[160];
+	char buf[1024];
 	snprintf (buf, sizeof buf, "%s%s", name, suffix);
 	pchar *k = p_ipc_get_platform_key (buf, TRUE);
 	snprintf (out, 32, "%s", k ? k : "/?");
@@ -51,8 +51,9 @@ static void key_of (char *out, const char *name, const char *suffix) {
 
 static void make_names (void) {
 	for (int i = 0; i < NN; ++i) {
-		snprintf (sem_name[i], sizeof sem_name[i], "pvipc-%d-%d-s%d", (int) getpid (), generation, i);
-		snprintf (shm_name[i], sizeof shm_name[i], "pvipc-%d-%d-m%d", (int) getpid (), generation, i);
+		char fill[300]; memset (fill, 'x', sizeof fill); fill[i >= 2 ? 280 : 0] = 0;
+		snprintf (sem_name[i], sizeof sem_name[i], "pvipc-%d-%d-%ss%d", (int) getpid (), generation, fill, i);
+		snprintf (shm_name[i], sizeof shm_name[i], "pvipc-%d-%d-%sm%d", (int) getpid (), generation, fill, i);
 		key_of (sem_key[i], sem_name[i], "_p_sem_object");
 		key_of (shm_key[i], shm_name[i], "_p_shm_object");
 		key_of (lock_key[i], shm_key[i], "_p_sem_object");
